@@ -105,7 +105,7 @@ pub fn one_case(kind: &str, si: &gen::SchemaInfo, input: &J, out: &mut Out) {
         "trace" => trace_case(si, input.as_str().unwrap(), out),
         "svisit" => svisit_case(&si.name, &si.text, out),
         "validate" | "purity" => crate::valcases::validate_case(si, input.as_str().unwrap(), &tmpdir(), out),
-        "c04" => crate::valcases::rules_case(si, input.as_str().unwrap(), &crate::valcases::RULES, &tmpdir(), out),
+        "c04" | "c10" | "c09" | "c11" | "c06" | "c07" | "c08" | "c05" => crate::valcases::rules_case(si, input.as_str().unwrap(), &crate::valcases::RULES, &tmpdir(), out),
         "ext" => {
             let mut rng = Rng::new(crate::env_seed());
             crate::extcases::schema_cases(si, false, &mut rng, out);
@@ -196,6 +196,40 @@ pub fn generate(kind: &str, thorough: bool, seed: u64, corpus: &str, out: &mut O
                 for t in random_docs(&si, &mut rng, 150 * scale, 5) { crate::valcases::rules_case(&si, &t, &rules, &tmp, out); }
             }
             for i in 0..(6 * scale) {
+                let si = gen::SchemaInfo::new(&format!("random{}", i), &gen::random_schema(&mut rng));
+                out.schema(&si);
+                for t in random_docs(&si, &mut rng, 50, 5) { crate::valcases::rules_case(&si, &t, &rules, &tmp, out); }
+            }
+        }
+        "c10" => {
+            let tmp = tmpdir();
+            let rules = ["KnownDirectives", "UniqueDirectivesPerLocation"];
+            let si = gen::SchemaInfo::new("dirs", &format!("{}{}{}", schemas::PRELUDE, schemas::TINY, schemas::DIRS));
+            out.schema(&si);
+            // ten directive slots, one per kind of owner, some nested inside other owners
+            let template = |sl: &[String; 10]| format!(
+                "query Q{} {{ t{} {{ t{} {{ a }} ...F{} ... on T{} {{ a{} }} ...{} {{ a }} }} }} fragment F on T{} {{ a }} mutation M{} {{ a }} subscription S{} {{ a }}",
+                sl[0], sl[1], sl[2], sl[3], sl[4], sl[5], sl[6], sl[7], sl[8], sl[9]);
+            let dirs = ["onQuery", "onMutation", "onSubscription", "onField", "onFragmentDefinition", "onFragmentSpread", "onInlineFragment",
+                        "everywhere", "rep", "fq", "typeSystemOnly", "skip", "unknownDirective"];
+            let mut fills: Vec<String> = vec![];
+            for d in dirs.iter() { for m in 1..=3 { fills.push((0..m).map(|_| format!(" @{}", d)).collect::<String>()); } }
+            for d in dirs.iter().take(10) { for e in ["rep", "everywhere", "unknownDirective"] { fills.push(format!(" @{} @{} @{}", d, e, d)); } }
+            let empty: [String; 10] = Default::default();
+            for i in 0..10 { for f in &fills { let mut sl = empty.clone(); sl[i] = f.clone(); crate::valcases::rules_case(&si, &template(&sl), &rules, &tmp, out); } }
+            // two slots at once (an owner nested in / following another directive-bearing owner)
+            let some: Vec<&String> = fills.iter().step_by(if thorough { 1 } else { 5 }).collect();
+            for i in 0..10 { for j in (i + 1)..10 { for (k, f) in some.iter().enumerate() {
+                let g = some[(k * 7 + i + j) % some.len()];
+                let mut sl = empty.clone(); sl[i] = (*f).clone(); sl[j] = g.clone();
+                crate::valcases::rules_case(&si, &template(&sl), &rules, &tmp, out);
+            } } }
+            for si in pool() {
+                out.schema(&si);
+                for t in corpus_docs(corpus, &si.name) { crate::valcases::rules_case(&si, &t, &rules, &tmp, out); }
+                for t in random_docs(&si, &mut rng, 100 * scale, 5) { crate::valcases::rules_case(&si, &t, &rules, &tmp, out); }
+            }
+            for i in 0..(8 * scale) {
                 let si = gen::SchemaInfo::new(&format!("random{}", i), &gen::random_schema(&mut rng));
                 out.schema(&si);
                 for t in random_docs(&si, &mut rng, 50, 5) { crate::valcases::rules_case(&si, &t, &rules, &tmp, out); }
